@@ -29,6 +29,10 @@ pub struct MountCase {
     pub random_sector: Option<u64>,
     /// expect the library to refuse (FAT12-sized volume)
     pub expect_reject: bool,
+    /// Some(L): the partition entry says the volume starts at block L (near 2^32) and the device really serves the
+    /// volume's boot sector there
+    #[serde(default)]
+    pub relocate_to: Option<u32>,
 }
 
 const BOOT_FIELDS: &[(u16, u8)] = &[(11, 2), (13, 1), (14, 2), (16, 1), (17, 2), (19, 2), (21, 1), (22, 2), (28, 4), (32, 4), (36, 4), (40, 2), (42, 2), (44, 4), (48, 2), (50, 2), (510, 2)];
@@ -64,6 +68,10 @@ pub fn gen_case(seed: u64) -> MountCase {
     let mut muts = Vec::new();
     let mut random_sector = None;
     let mut expect_reject = false;
+    let mut relocate_to = None;
+    if r.chance(1, 12) {
+        relocate_to = Some(*r.pick(&[0xFFFF_FFFFu32, 0xFFFF_FFFE, 0xFFFF_FFF0, 0xFFFF_FF00, 0xFFFF_FFFF - 31, 0xFFFF_FFFF - 32]));
+    }
     match mode {
         0 | 1 | 2 => {} // valid as formatted
         3 => {
@@ -116,7 +124,7 @@ pub fn gen_case(seed: u64) -> MountCase {
             random_sector = Some(r.next_u64());
         }
     }
-    MountCase { dev, target, muts, random_sector, expect_reject }
+    MountCase { dev, target, muts, random_sector, expect_reject, relocate_to }
 }
 
 pub fn mount_eval(case: &MountCase, flips_are_xor: bool) -> CaseOutcome {
@@ -128,7 +136,7 @@ pub fn mount_eval(case: &MountCase, flips_are_xor: bool) -> CaseOutcome {
     let (mut img, outs) = build_device(&case.dev);
     let v = &case.dev.vols[case.target];
     let g0 = outs[case.target].geom.clone();
-    let corrupted = !case.muts.is_empty() || case.random_sector.is_some();
+    let corrupted = !case.muts.is_empty() || case.random_sector.is_some() || case.relocate_to.is_some();
     let sector_block = |k: u8| -> u32 {
         match k {
             0 => 0,
@@ -184,6 +192,23 @@ pub fn mount_eval(case: &MountCase, flips_are_xor: bool) -> CaseOutcome {
         }
         img.set(blk, &b);
         probes.hit("random_sector");
+    }
+    if let Some(l) = case.relocate_to {
+        // a huge (sparse) device whose last blocks hold this volume's boot sector and FSInfo sector
+        img.num_blocks = u32::MAX;
+        let boot = img.get(v.lba);
+        img.set(l, &boot);
+        if v.fat32 {
+            if let Some(fi) = l.checked_add(v.fsinfo_sector as u32) {
+                if fi < u32::MAX {
+                    let info = img.get(v.lba + v.fsinfo_sector as u32);
+                    img.set(fi, &info);
+                }
+            }
+        }
+        let o = 446 + 16 * v.slot as usize + 8;
+        img.patch(0, o, &l.to_le_bytes());
+        probes.hit("volume_relocated_to_the_end_of_the_32bit_block_range");
     }
     let clock = SimClock::new(0);
     let ro = RoDisk::new(&img);
